@@ -388,6 +388,74 @@ func TestVerif_Daemon(t *testing.T) {
 			return
 		}
 		c.Count("daemon_startups_checked", 1)
+		// ---- phase 4: the operator changes a recorder setting while a motion recording is being
+		// written; the daemon ends itself to be restarted with the new settings. However it goes
+		// about that, nothing incomplete may bear the .cptv name afterwards.
+		cfgNow := cfgOff
+		cfgNow.Throttle = false
+		for round := 0; round < 4; round++ {
+			if round > 0 {
+				if err := r.startDaemon(bin); err != nil {
+					c.Inconclusive("daemon restart: " + err.Error())
+					return
+				}
+			}
+			conn2, err := net.Dial("unix", r.frameSock)
+			if err != nil {
+				c.Inconclusive("dial frame socket: " + err.Error())
+				return
+			}
+			// a full-size camera streaming as fast as the daemon reads: a frame is being written
+			// to the recording at practically every instant
+			big := leptonCamera("lepton3", 160, 120, 9)
+			conn2.Write(big.headerBytes())
+			raws := [][]byte{}
+			for _, f := range c10Frames(big, "ffff"+strings.Repeat("m", 12)) {
+				raws = append(raws, f.raw(big))
+			}
+			fed := make(chan int, 1)
+			go func() {
+				n := 0
+				for ; n < 200000; n++ {
+					raw := raws[n%len(raws)]
+					if n >= len(raws) {
+						raw = raws[4+n%12]
+					}
+					if _, err := conn2.Write(raw); err != nil {
+						break
+					}
+				}
+				fed <- n
+			}()
+			recording := waitFor(func() bool {
+				m, _ := filepath.Glob(filepath.Join(r.outDir, "*.cptv.temp"))
+				return len(m) > 0
+			}, 5*time.Second)
+			time.Sleep(time.Duration(7*round) * time.Millisecond)
+			cfgNow.MaxSecs = 600 + round
+			exited := make(chan struct{})
+			d := r.daemon
+			go func() { d.Wait(); close(exited) }()
+			ioutil.WriteFile(filepath.Join(r.confDir, "config.toml"), []byte(cfgNow.toml(r.outDir, r.frameSock)), 0644)
+			select {
+			case <-exited:
+				r.daemon = nil
+				c.Count("daemon_exits_for_a_config_change", 1)
+				if recording {
+					c.Count("daemon_exits_for_a_config_change_in_mid_recording", 1)
+				}
+			case <-time.After(30 * time.Second):
+				c.Note("daemon_config_change", "the daemon did not end itself within 30 s of a changed max-secs")
+				r.killDaemon()
+				<-exited
+			}
+			conn2.Close()
+			<-fed
+			if bad, _ := scanComplete(r.outDir); len(bad) > 0 {
+				c.ViolationP("C10", "incomplete-file-bears-cptv-name", "daemon tier; found after the daemon ended itself for a configuration change", strings.Join(bad, "; "))
+				return
+			}
+		}
 		c.Nontrivial(vNewHash().Int(restarts).Int(queues).Int(good).Sum())
 		c.Sample("daemon", func() interface{} {
 			return map[string]interface{}{"bad_frames": nbad, "restart_calls": restarts, "bad_frame_events": badEvents, "throttle_events": queues, "debris_after_kill": left, "complete_recordings": good}
